@@ -45,7 +45,8 @@ def run(ctx, rep):
     gen_storage = prog.by_path.get("<C as " + PC + "IntoStorage>::into_storage", [None])[0]
     gen_be = prog.by_path.get("<C as " + PC + "raw::to_bytes::ToBytes>::to_be_bytes", [None])[0]
     gen_le = prog.by_path.get("<C as " + PC + "raw::to_bytes::ToBytes>::to_le_bytes", [None])[0]
-    rep.check(all(x is not None for x in (gen_storage, gen_be, gen_le)), "O6", "anchors", "generic IntoStorage/ToBytes impls not found", status="undecided")
+    gen_ne = prog.by_path.get("<C as " + PC + "raw::to_bytes::ToBytes>::to_ne_bytes", [None])[0]
+    rep.check(all(x is not None for x in (gen_storage, gen_be, gen_le, gen_ne)), "O6", "anchors", "generic IntoStorage/ToBytes impls not found", status="undecided")
 
     # ---- O0: raw types are masked by construction ---------------------------------------------------------
     for rty_, info in sorted(rawinfo.items()):
@@ -220,7 +221,10 @@ def run(ctx, rep):
             ok = isinstance(st, BV) and r1 is not None and all(st.bit(j) == r1.bit(j) for j in range(max(sw, st.width or 0)))
             rep.check(ok, "O6", name + ":into_storage", "into_storage must be the raw value's bits; got %r vs raw %r" % (st, r1), at=gen_storage.span, fn=gen_storage.path)
             nbytes = (n + 7) // 8
-            for f, endian in ((gen_be, "be"), (gen_le, "le")):
+            from mirq.bits import NATIVE_ENDIAN
+            for f, endian, label in ((gen_be, "be", "be"), (gen_le, "le", "le"), (gen_ne, NATIVE_ENDIAN, "ne")):
+                if f is None:
+                    continue
                 arr = be.call_fn(f, [cinv])
                 ok = isinstance(arr, Arr) and len(arr.items) == nbytes and all(isinstance(x, BV) for x in arr.items)
                 if ok:
@@ -230,7 +234,7 @@ def run(ctx, rep):
                             if by.bit(k) != r1.bit(8 * src + k):
                                 ok = False
                 unknown = not isinstance(arr, Arr) or any(not isinstance(x, BV) or any(by_ == T for by_ in x.bits) for x in arr.items)
-                rep.check(ok, "O6", "%s:to_%s_bytes" % (name, endian), "to_%s_bytes must serialise the raw value's low %d byte(s) in %s-endian order; got %r for raw %r" % (endian, nbytes, endian, arr, r1), at=f.span, fn=f.path,
+                rep.check(ok, "O6", "%s:to_%s_bytes" % (name, label), "to_%s_bytes must serialise the raw value's low %d byte(s) in %s-endian order%s; got %r for raw %r" % (label, nbytes, endian, " (native order of the analysed build)" if label == "ne" else "", arr, r1), at=f.span, fn=f.path,
                           status="undecided" if unknown else "refuted")
 
 
